@@ -36,7 +36,8 @@ LEAN_KEYWORDS = {'from', 'end', 'at', 'fun', 'let', 'have', 'show', 'do', 'then'
 FRAME_KEYS = {'filepath': ('filepath', 'Str'), 'lineno': ('lineno', 'Str'), 'funcname': ('funcname', 'Str')}
 FRAME_GET = {'source_line': ('source_line', 'Option Str')}
 OBJ_ATTRS = {'Callpoint': {'module_path': ('path', 'Str'), 'lineno': ('lineno', 'Nat'), 'func_name': ('func', 'Str'),
-                           'line': ('dline', 'DLine')}}
+                           'line': ('dline', 'DLine')},
+             'ExcType': {'__qualname__': ('qualname', 'Str'), '__module__': ('modname', 'Option Str')}}
 
 
 class Unsupported(Exception):
@@ -82,7 +83,7 @@ def parse_type(t):
             return r
         if tk in ('List', 'Option'):
             return (tk, atom())
-        if tk in ('Str', 'Int', 'Nat', 'Bool', 'FrameD', 'Callpoint', 'DLine'):
+        if tk in ('Str', 'Int', 'Nat', 'Bool', 'FrameD', 'Callpoint', 'DLine', 'ExcType'):
             return (tk,)
         raise ValueError('unknown type %r in %r' % (tk, t))
 
@@ -184,9 +185,14 @@ class FnTr:
         a = self.f.args
         if a.vararg or a.kwarg or a.kwonlyargs or a.posonlyargs or a.defaults or a.kw_defaults:
             self.bad(self.f, 'only plain positional parameters without defaults')
-        if [d for d in self.f.decorator_list]:
-            self.bad(self.f, 'decorated function')
+        decos = [d.id if isinstance(d, ast.Name) else None for d in self.f.decorator_list]
         names = [x.arg for x in a.args]
+        if decos == ['classmethod'] and self.spec.get('region') and names and names[0] == 'cls':
+            names = names[1:]           # a region of a classmethod that does not mention `cls`
+            if any(isinstance(n, ast.Name) and n.id == 'cls' for st in self.region({}) for n in ast.walk(st)):
+                self.bad(self.f, 'the region uses cls')
+        elif decos:
+            self.bad(self.f, 'decorated function')
         env, params = {}, []
         self.self_obj = None
         self.self_attrs = {}
@@ -199,7 +205,9 @@ class FnTr:
                 params.append(('self', (self.self_obj,)))
             for attr, t in self.spec.get('self_attrs', {}).items():
                 self.self_attrs[attr] = parse_type(t)
-                params.append(('self_' + attr, parse_type(t)))
+                params.append(('self_' + attr.replace('.', '_'), parse_type(t)))
+        if self.spec.get('region'):
+            names = [n for n in names if n in self.spec['params']]      # the region reads only the declared ones
         if names != list(self.spec['params']):
             self.bad(self.f, 'parameters %r differ from the spec %r' % (names, list(self.spec['params'])))
         for n in names:
@@ -318,6 +326,16 @@ class FnTr:
             return self.call(e, env)
         self.bad(e, 'expression %s' % type(e).__name__)
 
+    def self_path(self, node):
+        """`self` -> '', `self.a.b` -> 'a.b', anything else -> None"""
+        parts = []
+        while isinstance(node, ast.Attribute):
+            parts.append(node.attr)
+            node = node.value
+        if isinstance(node, ast.Name) and node.id == 'self':
+            return '.'.join(reversed(parts))
+        return None
+
     def obj_attr(self, code, cls, attr, node):
         if attr not in OBJ_ATTRS[cls]:
             self.bad(node, 'attribute .%s of a %s is not declared' % (attr, cls))
@@ -344,6 +362,11 @@ class FnTr:
                 if t == ('Str',):
                     return code, t
                 self.bad(e, 'str() of a value of type %s' % show_type(t))
+            if fn.id == 'isinstance' and len(e.args) == 2 and isinstance(e.args[1], ast.Name) and e.args[1].id == 'str':
+                code, t = self.expr(e.args[0], env)
+                if t == ('Option', ('Str',)):       # a value declared `a str or something else`: none = not a str
+                    return '(Option.isSome %s)' % code, ('Bool',)
+                self.bad(e, 'isinstance(<%s>, str)' % show_type(t))
             if fn.id in env:
                 self.bad(e, 'call of a local')
             sp = self.callee(fn.id, e)
@@ -373,6 +396,21 @@ class FnTr:
                 if k != len(e.args):
                     self.bad(e, 'more arguments than {}')
                 return self.concat(pieces), ('Str',)
+            path = self.self_path(fn.value)
+            if path is not None and 'self' not in env and not self.self_obj:
+                # self.<m>() / self.<obj>.<m>(): a translated method whose declared attributes are attributes we hold
+                cls = self.spec['qualname'].split('.')[0] if path == '' else self.spec.get('self_classes', {}).get(path)
+                if cls is not None and '%s.%s' % (cls, fn.attr) in self.by_qual:
+                    sp = self.callee('%s.%s' % (cls, fn.attr), e)
+                    if e.args or sp['params'] or sp.get('self_obj'):
+                        self.bad(e, 'method call .%s(...) with arguments' % fn.attr)
+                    args = []
+                    for attr, t in sp.get('self_attrs', {}).items():
+                        full = (path + '.' if path else '') + attr
+                        if self.self_attrs.get(full) != parse_type(t):
+                            self.bad(e, 'callee reads self.%s, which the spec of the caller does not declare' % full)
+                        args.append('self_' + full.replace('.', '_'))
+                    return '(%s %s)' % (sp['lean_name'], ' '.join(args)), parse_type(sp['result'])
             recv, rt = self.expr(fn.value, env)
             if fn.attr == 'join' and rt == ('Str',) and len(e.args) == 1:
                 code, t = self.expr(e.args[0], env)
@@ -406,6 +444,18 @@ class FnTr:
             a, ta = self.expr(e.left, env)
             b, tb = self.expr(e.comparators[0], env)
             op = e.ops[0]
+            if isinstance(op, (ast.In, ast.NotIn)) and isinstance(e.comparators[0], ast.Tuple) \
+                    and e.comparators[0].elts and tb[0] == 'Prod' and all(t == tb[1][0] for t in tb[1]):
+                # membership in a tuple literal of values of one type: `==` against each item, left to right
+                items = [self.expr(x, env)[0] for x in e.comparators[0].elts]
+                it = tb[1][0]
+                if ta != it:
+                    if ta[0] == 'Option' and ta[1] == it:
+                        items = ['(some %s)' % c for c in items]
+                    else:
+                        self.bad(e, 'membership of %s in a tuple of %s' % (show_type(ta), show_type(it)))
+                code = '(List.elem %s [%s])' % (a, ', '.join(items))
+                return code if isinstance(op, ast.In) else '(!%s)' % code
             if isinstance(op, (ast.Eq, ast.NotEq)):
                 if ta != tb:
                     if tb[0] == 'Option' and tb[1] == ta:
@@ -414,7 +464,7 @@ class FnTr:
                         b, tb = '(some %s)' % b, ta
                     else:
                         self.bad(e, 'comparison of %s with %s' % (show_type(ta), show_type(tb)))
-                if ta[0] in ('FrameD', 'Callpoint', 'DLine'):
+                if ta[0] in ('FrameD', 'Callpoint', 'DLine', 'ExcType'):
                     self.bad(e, 'comparison of objects')
                 return '(%s %s %s)' % (a, '==' if isinstance(op, ast.Eq) else '!=', b)
             if isinstance(op, (ast.Lt, ast.LtE, ast.Gt, ast.GtE)) and ta == tb and ta in (('Int',), ('Nat',)):
@@ -582,9 +632,31 @@ class FnTr:
         return 'let %s :=\n%s\n' % (st, ind(code)) + ''.join(
             'let %s := %s\n' % (n, proj(st, i, len(names))) for i, n in enumerate(names))
 
+    def region(self, env):
+        """spec `region`: {'start': name, 'stop': name, 'result': name}: the statements of the body from the first
+        assignment of `start` up to (not including) the first assignment of `stop`, followed by `return <result>`"""
+        rg = self.spec['region']
+
+        def assigns(st, name):
+            return isinstance(st, ast.Assign) and len(st.targets) == 1 and isinstance(st.targets[0], ast.Name) \
+                and st.targets[0].id == name
+        body = self.f.body
+        a = [i for i, st in enumerate(body) if assigns(st, rg['start'])]
+        b = [i for i, st in enumerate(body) if assigns(st, rg['stop'])]
+        if not a or not b or b[0] <= a[0]:
+            self.bad(self.f, 'region %s .. %s not found' % (rg['start'], rg['stop']))
+        for st in body[:a[0]]:
+            if not (isinstance(st, ast.Expr) and isinstance(st.value, ast.Constant)):
+                self.bad(st, 'statement before the region')
+        ret = ast.Return(value=ast.Name(id=rg['result'], ctx=ast.Load()))
+        ast.copy_location(ret, body[b[0]])
+        ast.fix_missing_locations(ret)
+        return body[a[0]:b[0]] + [ret]
+
     def emit(self):
         env, params = self.signature()
-        body = self.block(self.f.body, env, None)
+        stmts = self.region(env) if self.spec.get('region') else self.f.body
+        body = self.block(stmts, env, None)
         sig = ' '.join('(%s : %s)' % (n, show_type(t)) for n, t in params)
         return 'def %s %s : %s :=\n%s\n' % (self.spec['lean_name'], sig, show_type(self.R), ind(body))
 
